@@ -1,25 +1,8 @@
 (* Model of the public ways of constructing TimeoutSettings
    (protocols/types.rs): the constructor, Default, the command-line flags
    (clap value parsers) and deserialisation (serde try_from). *)
-From GD Require Import Base.Prelude Model.Net.
+From GD Require Import Base.Prelude Model.StrOps Model.Net.
 
-(* str::parse::<u64/usize>: optional '+', at least one ASCII digit, no overflow *)
-Fixpoint parse_digits (l : bytes) (acc : N) (bound : N) : option N :=
-  match l with
-  | [] => Some acc
-  | c :: r =>
-      if (48 <=? c) && (c <=? 57) then
-        let acc' := acc * 10 + (c - 48) in
-        if bound <? acc' then None else parse_digits r acc' bound
-      else None
-  end.
-Definition parse_unsigned (bound : N) (s : bytes) : option N :=
-  match s with
-  | [] => None
-  | 43 :: [] => None
-  | 43 :: r => parse_digits r 0 bound
-  | _ => parse_digits s 0 bound
-  end.
 Definition u64_max : N := 18446744073709551615.
 
 (* parse_duration_secs: whole seconds, zero refused *)
